@@ -87,6 +87,9 @@ def run(ctx):
         datasets.append(gen.any_dataset(rng, fam, **kw))
     while len(datasets) < n_ds:
         datasets.append(gen.any_dataset(rng))
+    # a mesh with a placeholder node (a row on the node dimension without coordinates, used by no face): it is a location of
+    # the node grid like any other
+    datasets.append(gen.ugrid(rng, w=2, h=2, invalid=False, placeholder_node=True))
     if not quick:
         for fam, kw in [('cf1d', dict(ny=12, nx=15)), ('cf2d', dict(ny=9, nx=11)), ('shoc_standard', dict(nj=7, ni=9))]:
             datasets.append(gen.any_dataset(rng, fam, **kw))
